@@ -38,6 +38,7 @@ EXTENDS Integers, Sequences, FiniteSets, TLC
 
 CONSTANTS
   Owners,      \* container owners (strings)
+  AlphaOwner,  \* the owner whose account IS the standard account of Alphabet node AIdx(n) ("none": no such owner)
   Cids,        \* model container ids (strings)
   COwner,      \* [Cids -> Owners]: the owner encoded in the container's blob
   PutCids,     \* ids the scenarios may put (Cids \ PutCids = never-used ids)
@@ -48,6 +49,7 @@ CONSTANTS
   Amounts,     \* amounts offered to balance.mint
   NSet,        \* committee sizes
   NnsEnv,      \* TRUE: the environment may register / fill alias domains in advance
+  Acts,        \* optional actions explored: subset of {"delete", "setEACL", "meta", "put2"}
   MaxBal,      \* exploration bound
   Dev          \* deviation switches: behaviour of the code that the properties forbid
                \*   "StaleAlias": re-putNamed of a live container under another name keeps the old TXT record
@@ -58,9 +60,6 @@ TokEmpty(v) == v = "b"
 
 VARIABLES x, oidx, tomb, meta, eacl, alias, dom, txt, bal, abal, fee, afee, n, idk, api, ev
 raw   == <<x, oidx, tomb, meta, eacl, alias>>
-nnsv  == <<dom, txt>>
-money == <<bal, abal>>
-conf  == <<fee, afee, n>>
 state == <<x, oidx, tomb, meta, eacl, alias, dom, txt, bal, abal, fee, afee, n, idk>>
 vars  == <<x, oidx, tomb, meta, eacl, alias, dom, txt, bal, abal, fee, afee, n, idk, api, ev>>
 
@@ -68,9 +67,23 @@ Ntf(nm, c) == [n |-> nm, c |-> c]
 Xf(f, t, a) == [from |-> f, to |-> t, amt |-> a]
 ANode(k) == "A" \o ToString(k)
 
+(***************************************************************************)
+(* Accounts.  bal[o] is balanceOf(account of owner o), abal[k] is          *)
+(* balanceOf(standard account of Alphabet node k).  The owner AlphaOwner   *)
+(* owns the standard account of node AIdx(n) (the middle node, so that the *)
+(* fee loop has transfers before and after the self-transfer): for it      *)
+(* bal[AlphaOwner] and abal[AIdx(n)] are two readings of ONE account.      *)
+(***************************************************************************)
+AIdx(nn) == (nn + 1) \div 2
+AcctOf(o, nn) == IF o = AlphaOwner THEN ANode(AIdx(nn)) ELSE o
+
+\* An invocation.  put2 = two puts (c, v, nm, meta) and (c2, v2, nm2, meta2) of one signer set executed as two
+\* transactions of ONE block; res/ntf/xfer belong to the first, res2/ntf2/xfer2 to the second transaction.
+Event2(act, S, c, v, nm, mt, c2, v2, nm2, mt2, o, k, amt, res, res2, ret, ntf, ntf2, xfer, xfer2) ==
+  [act |-> act, S |-> S, c |-> c, v |-> v, nm |-> nm, meta |-> mt, c2 |-> c2, v2 |-> v2, nm2 |-> nm2, meta2 |-> mt2,
+   o |-> o, k |-> k, amt |-> amt, res |-> res, res2 |-> res2, ret |-> ret, ntf |-> ntf, ntf2 |-> ntf2, xfer |-> xfer, xfer2 |-> xfer2]
 Event(act, S, c, v, nm, mt, o, k, amt, res, ret, ntf, xfer) ==
-  [act |-> act, S |-> S, c |-> c, v |-> v, nm |-> nm, meta |-> mt, o |-> o, k |-> k, amt |-> amt,
-   res |-> res, ret |-> ret, ntf |-> ntf, xfer |-> xfer]
+  Event2(act, S, c, v, nm, mt, Nil, Nil, Nil, FALSE, o, k, amt, res, Nil, ret, ntf, <<>>, xfer, <<>>)
 
 InSeq(e, s) == \E i \in 1..Len(s) : s[i] = e
 
@@ -94,49 +107,71 @@ Fault(act, S, c, v, nm, mt, o, k, amt) ==
   /\ UNCHANGED state
   /\ ev' = Event(act, S, c, v, nm, mt, o, k, amt, "FAULT", "null", <<>>, <<>>)
 
-\* checkNiceNameAvailable: free, or owned by the committee / this contract and without TXT records
-NameOK(nm) == dom[nm] = "free" \/ (dom[nm] \in {"self", "cmt"} /\ txt[nm] = <<>>)
-\* NNS checkAdmin for a call made by the Container contract on domain nm
-CanAdmin(S, nm) == dom[nm] \in {"free", "self"} \/ (dom[nm] = "cmt" /\ "CMT" \in S)
-FeeOf(nm) == fee + (IF nm # Nil THEN afee ELSE 0)
+\* the state as one record, so that a transaction can be written as a function and two of them composed in a block
+Cur == [x |-> x, oidx |-> oidx, tomb |-> tomb, meta |-> meta, eacl |-> eacl, alias |-> alias, dom |-> dom, txt |-> txt,
+        bal |-> bal, abal |-> abal, fee |-> fee, afee |-> afee, n |-> n, idk |-> idk]
+Assign(s) == /\ x' = s.x /\ oidx' = s.oidx /\ tomb' = s.tomb /\ meta' = s.meta /\ eacl' = s.eacl /\ alias' = s.alias
+             /\ dom' = s.dom /\ txt' = s.txt /\ bal' = s.bal /\ abal' = s.abal /\ fee' = s.fee /\ afee' = s.afee
+             /\ n' = s.n /\ idk' = s.idk
 
-\* Put / PutNamed / PutMeta (mt: metaOnChain; the flag is written before everything else, a FAULT undoes it)
-Put(S, c, v, nm, mt) ==
+\* checkNiceNameAvailable: free, or owned by the committee / this contract and without TXT records
+NameOK(s, nm) == s.dom[nm] = "free" \/ (s.dom[nm] \in {"self", "cmt"} /\ s.txt[nm] = <<>>)
+\* NNS checkAdmin for a call made by the Container contract on domain nm
+CanAdmin(s, S, nm) == s.dom[nm] \in {"free", "self"} \/ (s.dom[nm] = "cmt" /\ "CMT" \in S)
+\* balanceOf(account of owner o)
+BalOf(s, o) == IF o = AlphaOwner THEN s.abal[AIdx(s.n)] ELSE s.bal[o]
+
+\* Put / PutNamed / PutMeta as a function of the state (mt: metaOnChain; the flag is written before everything
+\* else, a FAULT undoes it).  The fee loop transfers f from the owner's account to the standard account of every
+\* Alphabet node in committee order; when the owner's account is one of them that transfer is a self-transfer.
+PutF(s, S, c, v, nm, mt) ==
   LET o    == COwner[c]
-      f    == FeeOf(nm)
-      old  == alias[c]
+      f    == s.fee + (IF nm # Nil THEN s.afee ELSE 0)
+      old  == s.alias[c]
       drop == "StaleAlias" \notin Dev /\ nm # Nil /\ old # None      \* repaired code drops the previous alias record
-      ok   == /\ c \notin tomb                                        \* ErrorDeleted
-              /\ nm # Nil => NameOK(nm)                               \* checkNiceNameAvailable
-              /\ bal[o] >= f * n                                      \* insufficient balance
+      ok   == /\ c \notin s.tomb                                      \* ErrorDeleted
+              /\ nm # Nil => NameOK(s, nm)                            \* checkNiceNameAvailable
+              /\ BalOf(s, o) >= f * s.n                               \* insufficient balance
               /\ "ALPHA" \in S                                        \* CheckAlphabetWitness
               /\ f >= 0                                               \* balance.transferX refuses negative amounts
-              /\ nm # Nil => CanAdmin(S, nm)                          \* nns.addRecord -> checkAdmin
-              /\ drop => CanAdmin(S, old)                             \* nns.deleteRecords -> checkAdmin
-  IN  IF ok
-      THEN /\ x' = [x EXCEPT ![c] = v]
-           /\ oidx' = oidx \cup {c}
-           /\ meta' = IF mt THEN meta \cup {c} ELSE meta
-           /\ bal' = [bal EXCEPT ![o] = @ - f * n]
-           /\ abal' = [k \in 1..n |-> abal[k] + f]
-           /\ IF nm # Nil
-              THEN /\ dom' = [dom EXCEPT ![nm] = IF @ = "free" THEN "self" ELSE @]
-                   /\ txt' = [m \in Names |-> IF m = nm THEN Append(txt[m], c)
-                                              ELSE IF drop /\ m = old THEN <<>> ELSE txt[m]]
-                   /\ alias' = [alias EXCEPT ![c] = nm]
-              ELSE UNCHANGED <<dom, txt, alias>>
-           /\ idk' = IF TokEmpty(v) THEN idk \cup {o} ELSE idk
-           /\ UNCHANGED <<tomb, eacl, fee, afee, n>>
-           /\ ev' = Event("put", S, c, v, nm, mt, Nil, Nil, 0, "HALT", "null", <<Ntf("PutSuccess", c)>>,
-                          [k \in 1..n |-> Xf(o, ANode(k), f)])
-      ELSE Fault("put", S, c, v, nm, mt, Nil, Nil, 0)
+              /\ nm # Nil => CanAdmin(s, S, nm)                       \* nns.addRecord -> checkAdmin
+              /\ drop => CanAdmin(s, S, old)                          \* nns.deleteRecords -> checkAdmin
+      abal2 == [k \in 1..s.n |-> s.abal[k] + f - (IF o = AlphaOwner /\ k = AIdx(s.n) THEN f * s.n ELSE 0)]
+      bal2  == [p \in Owners |-> IF p = AlphaOwner THEN abal2[AIdx(s.n)]
+                                 ELSE IF p = o THEN s.bal[p] - f * s.n ELSE s.bal[p]]
+  IN  IF ~ok THEN [s |-> s, res |-> "FAULT", ntf |-> <<>>, xfer |-> <<>>]
+      ELSE [s |-> [s EXCEPT !.x = [@ EXCEPT ![c] = v],
+                            !.oidx = @ \cup {c},
+                            !.meta = IF mt THEN @ \cup {c} ELSE @,
+                            !.bal = bal2, !.abal = abal2,
+                            !.dom = IF nm # Nil THEN [@ EXCEPT ![nm] = IF @ = "free" THEN "self" ELSE @] ELSE @,
+                            !.txt = IF nm # Nil
+                                    THEN [m \in Names |-> IF m = nm THEN Append(s.txt[m], c)
+                                                          ELSE IF drop /\ m = old THEN <<>> ELSE s.txt[m]]
+                                    ELSE @,
+                            !.alias = IF nm # Nil THEN [@ EXCEPT ![c] = nm] ELSE @,
+                            !.idk = IF TokEmpty(v) THEN @ \cup {o} ELSE @],
+            res |-> "HALT", ntf |-> <<Ntf("PutSuccess", c)>>,
+            xfer |-> [k \in 1..s.n |-> Xf(AcctOf(o, s.n), ANode(k), f)]]
+
+Put(S, c, v, nm, mt) ==
+  LET r == PutF(Cur, S, c, v, nm, mt) IN
+  /\ Assign(r.s)
+  /\ ev' = Event("put", S, c, v, nm, mt, Nil, Nil, 0, r.res, "null", r.ntf, r.xfer)
+
+\* two puts in one block: the second transaction runs on the result of the first
+Put2(S, c, v, nm, mt, c2, v2, nm2, mt2) ==
+  LET r1 == PutF(Cur, S, c, v, nm, mt)
+      r2 == PutF(r1.s, S, c2, v2, nm2, mt2) IN
+  /\ Assign(r2.s)
+  /\ ev' = Event2("put2", S, c, v, nm, mt, c2, v2, nm2, mt2, Nil, Nil, 0, r1.res, r2.res, "null", r1.ntf, r2.ntf, r1.xfer, r2.xfer)
 
 \* Delete: a missing container is a silent no-op (no witness needed)
 Delete(S, c) ==
   IF x[c] = None
   THEN /\ UNCHANGED state
        /\ ev' = Event("delete", S, c, Nil, Nil, FALSE, Nil, Nil, 0, "HALT", "null", <<>>, <<>>)
-  ELSE IF "ALPHA" \in S /\ (alias[c] # None => CanAdmin(S, alias[c]))
+  ELSE IF "ALPHA" \in S /\ (alias[c] # None => CanAdmin(Cur, S, alias[c]))
   THEN /\ x' = [x EXCEPT ![c] = None]
        /\ oidx' = oidx \ {c}
        /\ meta' = meta \ {c}
@@ -164,12 +199,13 @@ SetConfig(S, k, val) ==
        /\ ev' = Event("setConfig", S, Nil, Nil, Nil, FALSE, Nil, k, val, "HALT", "null", <<>>, <<>>)
   ELSE Fault("setConfig", S, Nil, Nil, Nil, FALSE, Nil, k, val)
 
-\* balance.mint(owner, amount, details)
+\* balance.mint(account of owner o, amount, details)
 Mint(S, o, m) ==
   IF "ALPHA" \in S /\ m >= 0
   THEN /\ bal' = [bal EXCEPT ![o] = @ + m]
-       /\ UNCHANGED <<x, oidx, tomb, meta, eacl, alias, dom, txt, abal, fee, afee, n, idk>>
-       /\ ev' = Event("mint", S, Nil, Nil, Nil, FALSE, o, Nil, m, "HALT", "null", <<>>, <<Xf(Nil, o, m)>>)
+       /\ abal' = IF o = AlphaOwner THEN [abal EXCEPT ![AIdx(n)] = @ + m] ELSE abal
+       /\ UNCHANGED <<x, oidx, tomb, meta, eacl, alias, dom, txt, fee, afee, n, idk>>
+       /\ ev' = Event("mint", S, Nil, Nil, Nil, FALSE, o, Nil, m, "HALT", "null", <<>>, <<Xf(Nil, AcctOf(o, n), m)>>)
   ELSE Fault("mint", S, Nil, Nil, Nil, FALSE, o, Nil, m)
 
 \* environment: nns.register(<nm>.container, owner = committee account | stranger X)
@@ -203,15 +239,19 @@ Init ==
   /\ api = ApiOf(x, oidx, eacl, alias)
   /\ ev = Event("init", {}, Nil, Nil, Nil, FALSE, Nil, Nil, 0, "HALT", "null", <<>>, <<>>)
 
-\* mint amounts that land the owner exactly below / at / above the next charge
-Hint(o) == {d \in {fee * n - bal[o] - 1, fee * n - bal[o], fee * n - bal[o] + 1,
-                   (fee + afee) * n - bal[o] - 1, (fee + afee) * n - bal[o], (fee + afee) * n - bal[o] + 1} : d > 0}
+\* mint amounts that land the owner exactly below / at / above the next charge (or the next two charges of a block)
+Hint(o) == LET b == BalOf(Cur, o) IN
+           {d \in {fee * n - b - 1, fee * n - b, fee * n - b + 1,
+                   (fee + afee) * n - b - 1, (fee + afee) * n - b, (fee + afee) * n - b + 1,
+                   2 * fee * n - b - 1, 2 * fee * n - b, (2 * fee + afee) * n - b} : d > 0}
 
 NextOf(P(_), PS(_)) ==
   /\ \/ \E S \in PS(SignerSets), c \in P(PutCids), v \in P(Variants), nm \in P(Names \cup {Nil}) : Put(S, c, v, nm, FALSE)
-     \/ \E S \in PS(SignerSets), c \in P(PutCids), v \in P(Variants) : Put(S, c, v, Nil, TRUE)
-     \/ \E S \in PS(SignerSets), c \in P(Cids) : Delete(S, c)
-     \/ \E S \in PS(SignerSets), c \in P(Cids), v \in P(Variants) : SetEACL(S, c, v)
+     \/ "meta" \in Acts /\ \E S \in PS(SignerSets), c \in P(PutCids), v \in P(Variants) : Put(S, c, v, Nil, TRUE)
+     \/ "put2" \in Acts /\ \E S \in PS(SignerSets), c \in P(PutCids), v \in P(Variants), nm \in P(Names \cup {Nil}) :
+           \E c2 \in P(PutCids \ {c}), v2 \in P(Variants), nm2 \in P(Names \cup {Nil}) : Put2(S, c, v, nm, FALSE, c2, v2, nm2, FALSE)
+     \/ "delete" \in Acts /\ \E S \in PS(SignerSets), c \in P(Cids) : Delete(S, c)
+     \/ "setEACL" \in Acts /\ \E S \in PS(SignerSets), c \in P(Cids), v \in P(Variants) : SetEACL(S, c, v)
      \/ \E S \in PS(SignerSets), k \in P({"fee", "afee"}), val \in P(Fees) : SetConfig(S, k, val)
      \/ \E S \in PS(SignerSets), o \in P(Owners) : \E m \in P(IF Amounts = {} THEN {} ELSE Amounts \cup Hint(o)) : Mint(S, o, m)
      \/ NnsEnv /\ \E S \in PS(SignerSets), nm \in P(Names), who \in P({"cmt", "x"}) : NnsReg(S, nm, who)
@@ -233,11 +273,18 @@ Bounded == \A o \in Owners : bal[o] <= MaxBal
 (*   g.eacl[c]  last table set, g.alias[c] last name set                   *)
 (*   g.dead     ids deleted so far, g.names[c] every name c ever carried,  *)
 (*   g.last[c]  the alias c had when it was deleted                        *)
+(* A put2 step is judged as its two puts in order (Sub1, Sub2).            *)
 (***************************************************************************)
+Sub1(e) == [e EXCEPT !.act = "put"]
+Sub2(e) == [e EXCEPT !.act = "put", !.c = e.c2, !.v = e.v2, !.nm = e.nm2, !.meta = e.meta2, !.res = e.res2,
+                     !.ntf = e.ntf2, !.xfer = e.xfer2]
+\* the puts of a step, in execution order
+Subs(e) == IF e.act = "put" THEN <<e>> ELSE IF e.act = "put2" THEN <<Sub1(e), Sub2(e)>> ELSE <<>>
+
 GInit == [live |-> [c \in Cids |-> None], eacl |-> [c \in Cids |-> None], alias |-> [c \in Cids |-> None],
           dead |-> {}, names |-> [c \in Cids |-> {}], last |-> [c \in Cids |-> None]]
 
-GNext(g, e) ==
+GNext1(g, e) ==
   IF e.res # "HALT" THEN g
   ELSE IF e.act = "put"
   THEN [g EXCEPT !.live[e.c] = e.v,
@@ -249,6 +296,7 @@ GNext(g, e) ==
   ELSE IF e.act = "setEACL"
   THEN [g EXCEPT !.eacl[e.c] = e.v]
   ELSE g
+GNext(g, e) == IF e.act = "put2" THEN GNext1(GNext1(g, Sub1(e)), Sub2(e)) ELSE GNext1(g, e)
 
 Live(g) == {c \in Cids : g.live[c] # None}
 
@@ -268,7 +316,8 @@ C04_Lists(g2) == /\ \A o \in Owners : /\ api'.list[o] = {c \in Live(g2) : COwner
                  /\ api'.cof["all"] = Live(g2)
 C04_Count(g2) == api'.count = Cardinality(Live(g2))
 \* a deleted id can never be registered again
-C04_Final(g, e) == e.act = "put" /\ e.c \in g.dead => e.res = "FAULT"
+Final1(g, e) == e.act = "put" /\ e.c \in g.dead => e.res = "FAULT"
+C04_Final(g, e) == IF e.act = "put2" THEN Final1(g, Sub1(e)) /\ Final1(GNext1(g, Sub1(e)), Sub2(e)) ELSE Final1(g, e)
 \* every trace of a deleted container is gone: blob, owner index, eACL, alias and the NNS record of every name
 \* it carried, meta flag (raw storage of the Container contract + NNS records)
 NoRawTrace(g2) == \A c \in g2.dead : x'[c] = None /\ c \notin oidx' /\ eacl'[c] = None /\ alias'[c] = None /\ c \notin meta'
@@ -279,28 +328,50 @@ OnlyFormerAliasRecords(g2) == /\ NoRawTrace(g2) /\ StaleRecords(g2) # {}
                               /\ \A p \in StaleRecords(g2) : p[2] # g2.last[p[1]]
 \* exactly one PutSuccess / DeleteSuccess / SetEACLSuccess per successful put / delete / setEACL, none otherwise
 \* (a HALTing delete of a missing container deletes nothing: the statement allows both zero and one notification)
-C04_Notif(g, e) ==
+Notif1(g, e) ==
   LET one(nm) == <<Ntf(nm, e.c)>> IN
   IF e.res = "HALT" /\ e.act = "put" THEN e.ntf = one("PutSuccess")
   ELSE IF e.res = "HALT" /\ e.act = "setEACL" THEN e.ntf = one("SetEACLSuccess")
   ELSE IF e.res = "HALT" /\ e.act = "delete"
        THEN IF g.live[e.c] # None THEN e.ntf = one("DeleteSuccess") ELSE e.ntf \in {<<>>, one("DeleteSuccess")}
   ELSE e.ntf = <<>>
+C04_Notif(g, e) == IF e.act = "put2" THEN Notif1(g, Sub1(e)) /\ Notif1(GNext1(g, Sub1(e)), Sub2(e)) ELSE Notif1(g, e) /\ e.ntf2 = <<>>
 
-\* --- C05 --- (fee values of the pre-state: "configured in Netmap at that moment")
-Charge(e) == fee + (IF e.nm # Nil THEN afee ELSE 0)
+\* --- C05 --- (fee values of the pre-state: "configured in Netmap at that moment"; no put changes them)
+\* The arithmetic is stated per ACCOUNT as the sum over the fee transfers of the successful puts of the step, so
+\* that it is right when roles overlap (the owner's account is an Alphabet node's account: net -F*N + F) and when
+\* several puts share a block.  Accounts: ordinary owners and the n node accounts (AlphaOwner's is one of those).
+NodeAccts == {ANode(k) : k \in 1..n}
+Accts == (Owners \ {AlphaOwner}) \cup NodeAccts
+BalA(B, A, a) == IF a \in Owners THEN B[a] ELSE A[CHOOSE k \in 1..n : ANode(k) = a]
+Charge(s) == fee + (IF s.nm # Nil THEN afee ELSE 0)
+\* effect of put s on account a: +F for every node account, -F*N for the owner's account, nothing if it failed
+Delta(s, a) == IF s.res # "HALT" THEN 0
+               ELSE (IF a \in NodeAccts THEN Charge(s) ELSE 0) - (IF a = AcctOf(COwner[s.c], n) THEN Charge(s) * n ELSE 0)
+RECURSIVE SumDelta(_, _, _)
+SumDelta(ss, a, k) == IF k = 0 THEN 0 ELSE Delta(ss[k], a) + SumDelta(ss, a, k - 1)
+
 C05_Exact(e) ==
-  e.act = "put" /\ e.res = "HALT" =>
-    LET o == COwner[e.c] IN
-    /\ bal'[o] = bal[o] - Charge(e) * n
-    /\ \A p \in Owners \ {o} : bal'[p] = bal[p]
+  LET ss == Subs(e) IN
+  ss # <<>> =>
     /\ DOMAIN abal' = 1..n
-    /\ \A k \in 1..n : abal'[k] = abal[k] + Charge(e)
-    /\ api'.get[e.c] = e.v                                  \* stored in the same transaction
-C05_MustPay(e) == e.act = "put" /\ bal[COwner[e.c]] < Charge(e) * n => e.res = "FAULT"
+    /\ \A a \in Accts : BalA(bal', abal', a) - BalA(bal, abal, a) = SumDelta(ss, a, Len(ss))    \* nothing else moves
+    /\ \A i \in 1..Len(ss) : ss[i].res = "HALT" /\ (\A j \in (i + 1)..Len(ss) : ss[j].res # "HALT" \/ ss[j].c # ss[i].c)
+                               => api'.get[ss[i].c] = ss[i].v                     \* stored in the same transaction
+\* an owner who cannot pay the full amount when its transaction runs (after the earlier puts of the block) fails
+C05_MustPay(e) ==
+  LET ss == Subs(e) IN
+  \A i \in 1..Len(ss) :
+     LET a == AcctOf(COwner[ss[i].c], n) IN
+     BalA(bal, abal, a) + SumDelta(ss, a, i - 1) < Charge(ss[i]) * n => ss[i].res = "FAULT"
+\* a failing put changes neither balances (C05_Exact: its Delta is 0) nor the registry
+CidUnchanged(c) == /\ x'[c] = x[c] /\ (c \in oidx') = (c \in oidx) /\ (c \in tomb') = (c \in tomb) /\ (c \in meta') = (c \in meta)
+                   /\ eacl'[c] = eacl[c] /\ alias'[c] = alias[c]
+                   /\ api'.get[c] = api.get[c] /\ api'.owner[c] = api.owner[c] /\ api'.eacl[c] = api.eacl[c]
+                   /\ api'.alias[c] = api.alias[c]
 C05_Atomic(e) ==
-  e.act = "put" /\ e.res = "FAULT" =>
-    /\ bal' = bal /\ abal' = abal
-    /\ api' = api /\ raw' = raw
+  LET ss == Subs(e) IN
+  /\ ss # <<>> /\ (\A i \in 1..Len(ss) : ss[i].res = "FAULT") => bal' = bal /\ abal' = abal /\ api' = api /\ raw' = raw
+  /\ \A i \in 1..Len(ss) : ss[i].res = "FAULT" /\ (\A j \in 1..Len(ss) : j # i => ss[j].c # ss[i].c) => CidUnchanged(ss[i].c)
 
 =============================================================================
